@@ -4,6 +4,7 @@
 //! property logic: every accept/reject decision is taken by TLC on the TLA+ specification.
 
 mod certdrv;
+mod csrdrv;
 mod der;
 mod desc;
 mod dndrv;
@@ -32,6 +33,8 @@ fn main() {
 	match args[1].as_str() {
 		"backend" => println!("{}", BACKEND),
 		"cert-cases" => certdrv::run_cases(&args[2], &args[3]),
+		"csr-cases" => csrdrv::run_csr_cases(&args[2], &args[3]),
+		"crl-cases" => csrdrv::run_crl_cases(&args[2], &args[3]),
 		"dn-cases" => dndrv::run_cases(&args[2], &args[3]),
 		"dn-random" => dndrv::run_random(&args[2], args[3].parse().unwrap(), args[4].parse().unwrap()),
 		other => {
